@@ -110,6 +110,10 @@ func genProjTable(t *rapid.T, minRows, maxRows int, label string) *ProjTable {
 				row[pt.Obj] = map[string]any{"k1": rapid.SampledFrom(numPool).Draw(t, l+".k1"), "k2": rapid.SampledFrom(intPool).Draw(t, l+".k2")}
 			}
 		}
+		if hasObj && rapid.IntRange(0, 5).Draw(t, fmt.Sprintf("%s.r%d.dotted", label, r)) == 0 {
+			// a top-level key spelled like a path (obj.k1): an unquoted reference obj.k1 is a path all the same
+			row[pt.Obj+"."+rapid.SampledFrom([]string{"k1", "k2", "nokey"}).Draw(t, fmt.Sprintf("%s.r%d.dottedkey", label, r))] = rapid.SampledFrom([]any{777.0, "decoy", nil, 0.0}).Draw(t, fmt.Sprintf("%s.r%d.dottedval", label, r))
+		}
 		pt.Tb.Rows = append(pt.Tb.Rows, row)
 	}
 	return pt
